@@ -122,6 +122,7 @@ fn point(z: f64, t: f64, listed: &[(usize, usize, f64)], ev: &mut Ev) -> Outcome
                 ev.nontrivial(fingerprint(&(si, t.to_bits(), "pair")));
             }
             ev.label("ok");
+            ev.sample(|| format!("z = {z}, t = {t:e} s -> r = {r} m, Lorentz correction {l} rad (slice {si})"));
         }
     }
     Ok(())
